@@ -130,6 +130,48 @@ func runC09(c *Ctx) {
 		}
 	}
 	flush()
+	// logouts whose removal fails: above the store (spy fault, before / after the effect) and, on Redis, inside it (the DEL
+	// command fails); followed by requests with the same cookie.  A removal that failed must not be answered as a logout.
+	{
+		var hcases []string
+		var hdescr []any
+		for _, store := range []string{"memory", "redis"} {
+			for mode := 0; mode < 4; mode++ {
+				if mode == 3 && store != "redis" {
+					continue
+				}
+				for ci := 0; ci < 2; ci++ {
+					o := cfgVariants[ci]
+					o.Store = store
+					w := newWorld(c.Seed*53+int64(mode), o)
+					s := newSim(w, newRand(c.Seed, int64(9900+mode)))
+					b := compliant()
+					b.IDLife, b.ExpiresIn = 600, 600
+					s.Login("/app", b)
+					old := s.Jar
+					var f map[int]faultKind
+					switch mode {
+					case 1:
+						f = map[int]faultKind{0: failBefore}
+					case 2:
+						f = map[int]faultKind{0: failAfter}
+					case 3:
+						w.NextCmdFaults = []string{"del"}
+					}
+					s.request(reqSpec{Scheme: "https", Host: s.AppHost, Path: "/logout", Cookie: s.cookie(old)}, f, false)
+					s.request(reqSpec{Scheme: "https", Host: s.AppHost, Path: "/app", Cookie: s.cookie(old)}, nil, false)
+					s.request(reqSpec{Scheme: "https", Host: s.AppHost, Path: "/logout", Cookie: s.cookie(old)}, nil, false)
+					s.request(reqSpec{Scheme: "https", Host: s.AppHost, Path: "/app", Cookie: s.cookie(old)}, nil, false)
+					c.Sum.Evaluations += len(s.Steps)
+					c.Hist("scenario", fmt.Sprintf("logout-removal-fault-mode-%d/%s", mode, store))
+					hcases = append(hcases, s.galHist())
+					hdescr = append(hdescr, s.descr(map[string]any{"scenario": "logout with failing removal", "mode": []string{"none", "spy before", "spy after", "redis DEL fails"}[mode]}))
+					w.Close()
+				}
+			}
+		}
+		c.WriteShardWith("Oidc.Types Corr.Hist Corr.C09", "hist", hcases, hdescr, "", "run_seq cases")
+	}
 	// sequential histories with logouts, judged by the same monitor (no concurrent phase)
 	nseq := 200
 	if c.Thorough() {
